@@ -450,3 +450,126 @@ UNITS += [
          assumptions=["a step equal to the range carries the range action (set by calc_physics_step_limit; history-dependent precondition)"],
          note="MeanELoss::calc_eloss satisfies the helper contract used by ElossApplier (loss <= E, cut rule), its own CELER_ENSUREs hold"),
 ]
+
+
+# ---------------------------------------------------------------------------
+# InteractionApplierBaseImpl<F>::operator()
+# ---------------------------------------------------------------------------
+IAP = "src/celeritas/phys/InteractionApplier.hh"
+
+IAP_MODEL = """
+#include <stdlib.h>
+enum { IA_scattered = 0, IA_absorbed = 1, IA_unchanged = 2, IA_failed = 3 };   /* Interaction::Action (bound) */
+typedef struct { size_type particle_id; real_type energy; real_type direction[3]; } Secondary;
+typedef struct { Secondary* ptr; size_type size; } SpanSecondary;
+typedef struct { real_type energy; real_type direction[3]; SpanSecondary secondaries; real_type energy_deposition; int action; } Interaction;
+#define NPART 8
+#define NSECMAX 16
+bool g_anti[NPART]; real_type g_mass[NPART];      /* ghost particle table: ParticleView(pid).is_antiparticle(), .mass() */
+bool g_cut[NSECMAX];                               /* ghost: CutoffView::apply's answer for secondary k (any predicate) */
+bool g_apply_post;                                 /* CutoffView::apply_post_interaction() */
+real_type g_sum;                                   /* ghost: the specified deposition, accumulated in lock-step */
+size_type g_k; Secondary g_old;                    /* ghost witness secondary and its value before the call */
+Interaction g_result;                              /* ghost: what the interactor returned */
+size_type g_nsec; Secondary* g_secs;
+/* F: the model's interactor; any result satisfying Interaction's invariants */
+Interaction F_sample_interaction(CoreTrackView const* track)
+__CPROVER_requires(VIEW_OK(track))
+__CPROVER_assigns(g_result)
+__CPROVER_ensures(__CPROVER_return_value.action >= 0 && __CPROVER_return_value.action <= 3)
+__CPROVER_ensures(__CPROVER_return_value.energy >= 0 && !__CPROVER_isinfd(__CPROVER_return_value.energy) && __CPROVER_return_value.energy_deposition >= 0 && !__CPROVER_isinfd(__CPROVER_return_value.energy_deposition))
+__CPROVER_ensures(__CPROVER_return_value.secondaries.ptr == g_secs && __CPROVER_return_value.secondaries.size == g_nsec)
+__CPROVER_ensures(g_result.action == __CPROVER_return_value.action && g_result.energy == __CPROVER_return_value.energy && g_result.energy_deposition == __CPROVER_return_value.energy_deposition)
+;
+typedef struct { CoreTrackView const* track; } CutoffView;
+typedef struct { size_type pid; } ParticleView;
+typedef struct { Track* t; } GeoTrackView;
+static CutoffView CTV_make_cutoff_view(CoreTrackView const* track) { CutoffView c = {track}; return c; }
+static bool CUT_apply_post_interaction(CutoffView const* c) { return g_apply_post; }
+static bool CUT_apply(CutoffView const* c, Secondary const* s) { return g_cut[s - g_secs]; }
+static bool PV_is_antiparticle(ParticleView const* p) { __CPROVER_assert(p->pid < NPART, "celer_expect: valid particle id"); return g_anti[p->pid]; }
+static real_type PV_mass(ParticleView const* p) { __CPROVER_assert(p->pid < NPART, "celer_expect: valid particle id"); return g_mass[p->pid]; }
+/* sim.step_limit(sl): contract enforced in c05_stv_step_limit */
+bool STV_step_limit(SimTrackView* self, real_type step, ActionId action)
+__CPROVER_requires(VIEW_OK(self) && step >= 0)
+__CPROVER_assigns(self->t->step_length, self->t->post_step_action)
+__CPROVER_ensures(self->t->step_length == (step < __CPROVER_old(self->t->step_length) ? step : __CPROVER_old(self->t->step_length)))
+__CPROVER_ensures(self->t->post_step_action == (step < __CPROVER_old(self->t->step_length) ? action : __CPROVER_old(self->t->post_step_action)))
+;
+void GEO_set_dir(GeoTrackView* g, real_type const* dir) __CPROVER_requires(g != 0) __CPROVER_assigns() __CPROVER_ensures(1);   /* geometry state is outside this ledger */
+void PSV_secondaries_set(PhysicsStepView* self, SpanSecondary s) __CPROVER_requires(VIEW_OK(self)) __CPROVER_assigns() __CPROVER_ensures(1);
+"""
+
+IAP_GHOST_STEP = ("            /* ghost lock-step: the SPECIFIED deposition adds a cut secondary's kinetic energy, plus 2mc^2 iff THAT SECONDARY is an antiparticle */\n"
+                  "            if (g_cut[si_]) { g_sum += secondary->energy; if (g_anti[secondary->particle_id]) g_sum += 2 * g_mass[secondary->particle_id]; }")
+
+IAP_RULES = Q_RULES + [
+    Rule(r"Interaction result = this->sample_interaction\(track\);", "Interaction result = F_sample_interaction(track);", 1, note="F functor -> stub"),
+    Rule(r"auto sim = track\.make_sim_view\(\);", "SimTrackView sim = CTV_make_sim_view(track);", 1, note="typed view handle"),
+    Rule(r"Interaction::Action::(\w+)", r"IA_\1", "*", note="enum class value (bound)"),
+    Rule(r"auto phys = track\.make_physics_view\(\);", "PhysicsTrackView phys = CTV_make_physics_view(track);", 1, note="typed view handle"),
+    Rule(r"sim\.step_limit\(\{0, phys\.scalars\(\)\.failure_action\(\)\}\);", "STV_step_limit(&sim, 0, track->t->failure_action);", 1, note="StepLimit{0, failure_action} aggregate -> two arguments"),
+    Rule(r"!result\.changed\(\)", "!(result.action < IA_unchanged)", 1, note="Interaction::changed(): action < unchanged"),
+    Rule(r"auto particle = track\.make_particle_view\(\);", "ParticleTrackView particle = CTV_make_particle_view(track);", 1, note="typed view handle"),
+    Rule(r"particle\.energy\(result\.energy\);", "PTV_energy_set(&particle, result.energy);", "*", note="view setter"),
+    Rule(r"auto geo = track\.make_geo_view\(\);", "GeoTrackView geo = {track->t};", 1, note="typed view handle"),
+    Rule(r"geo\.set_dir\(result\.direction\);", "GEO_set_dir(&geo, result.direction);", "*", note="view call -> stub"),
+    Rule(r"sim\.status\(TrackStatus::killed\);", "STV_status_set(&sim, TS_killed);", "*", note="view setter"),
+    Rule(r"real_type deposition = result\.energy_deposition;", "real_type deposition = result.energy_deposition; g_sum = g_result.energy_deposition; /* ghost */", 1, note="ghost init"),
+    Rule(r"auto cutoff = track\.make_cutoff_view\(\);", "CutoffView cutoff = CTV_make_cutoff_view(track);", 1, note="typed view handle"),
+    Rule(r"cutoff\.apply_post_interaction\(\)", "CUT_apply_post_interaction(&cutoff)", 1, note="view call"),
+    Rule(r"for \(auto& secondary : result\.secondaries\)\s*\{",
+         "for (size_type si_ = 0; si_ < result.secondaries.size; ++si_)\n        {\n            Secondary* secondary = &result.secondaries.ptr[si_];\n" + "IAP_PER_ELEMENT" + IAP_GHOST_STEP, 1,
+         note="range-for over a Span -> index loop; ghost injected"),
+    Rule(r"cutoff\.apply\(secondary\)", "CUT_apply(&cutoff, secondary)", 1, note="view call"),
+    Rule(r"secondary\.energy", "secondary->energy", "*", note="reference -> pointer"),
+    Rule(r"auto sec_par = track\.make_particle_view\(secondary\.particle_id\);", "ParticleView sec_par = {secondary->particle_id};", (0, 1), note="ParticleView for the secondary's id"),
+    Rule(r"sec_par\.(is_antiparticle|mass)\(\)", r"PV_\1(&sec_par)", "*", note="ParticleView call"),
+    Rule(r"particle\.(is_antiparticle|mass)\(\)", r"PTV_\1(&particle)", "*", note="view call"),
+    Rule(r"secondary = \{\};", "secondary->particle_id = INVALID_ID; secondary->energy = 0; secondary->direction[0] = 0; secondary->direction[1] = 0; secondary->direction[2] = 0;", 1, note="Secondary{} : invalid id, zero energy, zero direction"),
+    Rule(r"auto phys = track\.make_physics_step_view\(\);", "PhysicsStepView physs = CTV_make_physics_step_view(track);", 1, note="typed view handle (renamed: differently-typed name in the same C scope)"),
+    Rule(r"phys\.deposit_energy\(", "PSV_deposit_energy(&physs, ", 1, note="view call"),
+    Rule(r"phys\.secondaries\(result\.secondaries\);", "PSV_secondaries_set(&physs, result.secondaries);", 1, note="view call"),
+]
+
+
+def build_interaction_applier(ctx):
+    pc = ctx.func(IAP, r"^InteractionApplierBaseImpl<F>::operator\(\)\(celeritas::CoreTrackView const& track\)", IAP_RULES, name="InteractionApplierBaseImpl<F>::operator()")
+    body = pc.body.replace("IAP_PER_ELEMENT", "")
+    return (VHDR + IAP_MODEL + """
+#define T0(f) __CPROVER_old(track->t->f)
+void IAP_call(CoreTrackView const* track)
+__CPROVER_requires(VIEW_OK(track) && g_nsec <= NSECMAX && __CPROVER_rw_ok(g_secs, g_nsec * sizeof(Secondary)))
+__CPROVER_requires(track->t->energy >= 0 && track->t->energy_deposition >= 0 && !__CPROVER_isinfd(track->t->energy_deposition) && track->t->step_length >= 0 && track->t->status >= 0 && track->t->status < 5)
+__CPROVER_requires(g_k < g_nsec ==> (g_old.particle_id == g_secs[g_k].particle_id && g_old.energy == g_secs[g_k].energy))
+__CPROVER_assigns(track->t->energy, track->t->status, track->t->energy_deposition, track->t->step_length, track->t->post_step_action, g_result, g_sum, __CPROVER_object_whole(g_secs))
+/* allocation failure: NOTHING of the physics changes -- energy, status, deposition and the secondaries stay as they were; a zero step with the failure action is requested */
+__CPROVER_ensures(g_result.action == IA_failed ==> (track->t->energy == T0(energy) && track->t->status == T0(status) && track->t->energy_deposition == T0(energy_deposition)
+      && track->t->step_length == 0 && (T0(step_length) > 0 ==> track->t->post_step_action == track->t->failure_action)
+      && (g_k < g_nsec ==> (g_secs[g_k].particle_id == g_old.particle_id && g_secs[g_k].energy == g_old.energy))))
+__CPROVER_ensures(g_result.action == IA_unchanged ==> (track->t->energy == T0(energy) && track->t->status == T0(status) && track->t->energy_deposition == T0(energy_deposition)))
+/* scattered or absorbed: the particle takes the interaction's energy; killed iff absorbed */
+__CPROVER_ensures(g_result.action < IA_unchanged ==> (track->t->energy == g_result.energy && track->t->status == (g_result.action == IA_absorbed ? TS_killed : T0(status))))
+/* LEDGER: the deposition grows by the interaction's local deposit plus, for every secondary below the cut, its kinetic energy and 2mc^2 if THAT secondary is an antiparticle */
+__CPROVER_ensures(g_result.action < IA_unchanged ==> track->t->energy_deposition == T0(energy_deposition) + g_sum)
+__CPROVER_ensures((g_result.action < IA_unchanged && !g_apply_post) ==> g_sum == g_result.energy_deposition)
+/* cut secondaries are cleared, the others are passed on unchanged */
+__CPROVER_ensures((g_result.action < IA_unchanged && g_k < g_nsec) ==> ((g_apply_post && g_cut[g_k]) ? (g_secs[g_k].particle_id == INVALID_ID && g_secs[g_k].energy == 0)
+                                                                                                       : (g_secs[g_k].particle_id == g_old.particle_id && g_secs[g_k].energy == g_old.energy)))
+{""" + body + """}
+#ifndef NSEC
+#define NSEC NSECMAX
+#endif
+void h_iap(void)
+{
+    Track t; CoreTrackView v = {&t}; size_type n, k; unsigned r;
+    __CPROVER_assume(n <= NSEC);
+    Secondary* s = malloc(n * sizeof(Secondary)); __CPROVER_assume(s != 0);
+    g_secs = s; g_nsec = n; g_k = k; g_apply_post = (r != 0);
+    for (unsigned i = 0; i < NPART; ++i) { unsigned a; g_anti[i] = (a != 0); __CPROVER_assume(g_mass[i] >= 0 && !__CPROVER_isinfd(g_mass[i])); }
+    for (unsigned i = 0; i < NSEC; ++i) { unsigned c; g_cut[i] = (c != 0); if (i < n) __CPROVER_assume(s[i].particle_id < NPART && s[i].energy >= 0 && !__CPROVER_isinfd(s[i].energy)); }
+    if (k < n) g_old = s[k];
+    IAP_call(&v);
+    VERIF_CANARY();
+}
+""")
